@@ -28,6 +28,7 @@ type FuncResult struct {
 	Abstractions []abstraction `json:"abstractions"`
 	Trusted      []string      `json:"trusted"`
 	UnusedCallee []string      `json:"unused_callee_clauses,omitempty"`
+	UsedSetClauses []string    `json:"used_set_clauses,omitempty"` // call-site clauses that update ghosts and matched a call: when such a call vanishes the ghosts are undefined
 	GuardClauses []string      `json:"guard_clauses,omitempty"` // requires of callee clauses no call matches on this tree: they guard calls a change may introduce
 	Loops        int           `json:"loops"`
 	LoopSigs     []string      `json:"loop_sigs,omitempty"`
@@ -379,6 +380,9 @@ func verifyFunction(w *World, fn *ssa.Function, unroll int) *FuncResult {
 		}
 		fr.Drift = append(fr.Drift, g.anchorNotes...)
 		for _, cs := range spec.Callees {
+			if g.calleeUse[cs] > 0 && (len(cs.Sets) > 0 || len(cs.MutGhosts) > 0) {
+				fr.UsedSetClauses = append(fr.UsedSetClauses, cs.Name)
+			}
 			if g.calleeUse[cs] == 0 {
 				fr.UnusedCallee = append(fr.UnusedCallee, cs.Name)
 				for _, c := range cs.Requires {
